@@ -88,6 +88,7 @@ type boundedResult struct {
 	err    string
 	replay string
 	wall   float64
+	known  bool // the harness met (only) the failure it recognises as the listed finding: it printed RAC-KNOWN-FINDING
 }
 
 var reEvals = regexp.MustCompile(`RAC-EVALS (\d+)`)
@@ -123,6 +124,7 @@ func runBounded(id string, b BoundedSpec, tier string, seed int, outDir string) 
 		r.evals += n
 	}
 	s := out.String()
+	r.known = strings.Contains(s, "RAC-KNOWN-FINDING")
 	switch {
 	case strings.Contains(s, "RAC-FAIL"):
 		r.failed = true
